@@ -6,10 +6,12 @@ package codegen
 
 // Writing a section and post-processing a Go file touch the file system (assumed: they are not the subject here).
 //@ func (*SectionTemplate).Write
+//@   params s w
 //@   trusted
 //@   ensures fsWrites >= old(fsWrites)
 //@   modifies fsWrites
 //@ func finalizeGoSource
+//@   params path
 //@   trusted
 //@   ensures fsWrites >= old(fsWrites)
 //@   modifies fsWrites, fsExists
@@ -17,6 +19,7 @@ package codegen
 // "The example command never modifies a file that already exists": a SkipExist file whose path exists
 // is left alone — no directory is created, nothing is opened or written.
 //@ func (*File).Render
+//@   params f dir
 //@   property C09
 //@   requires f != nil
 //@   callspec FinalizeFunc
@@ -33,6 +36,7 @@ package codegen
 // A scope never hands out the same identifier twice: the name returned was not in use, is recorded, and
 // nothing else changes (whole-map postcondition). Two successive calls therefore return different names.
 //@ func (*NameScope).Unique
+//@   params s name suffix
 //@   property C01
 //@   requires s != nil && s.counts != nil
 //@   ensures* fresh.name: !old(inMap(s.counts, result))
@@ -48,6 +52,7 @@ package codegen
 
 // The same hash always yields the same name; a new hash yields a name that was not in use.
 //@ func (*NameScope).HashedUnique
+//@   params s key name suffix
 //@   property C01
 //@   requires s != nil && s.counts != nil && s.names != nil
 //@   ensures* same.hash.same.name: old(inMap(s.names, hashOf(key))) ==> result == old(s.names[hashOf(key)])
@@ -57,6 +62,7 @@ package codegen
 //@   frameprop C01
 
 //@ func (*NameScope).Name
+//@   params s name
 //@   property C01
 //@   requires s != nil
 //@   modifies* nothing
@@ -65,6 +71,7 @@ package codegen
 // Reserved words are escaped: the result is never a keyword, a predeclared identifier or one of the
 // package names the generated code imports.
 //@ func fixReservedGo
+//@   params w
 //@   property C01
 //   -- under the representation invariant of the package table (its initial value, checked by the assumption audit codegen-models;
 //   -- nothing writes the table afterwards): no entry ends with an underscore
